@@ -630,6 +630,10 @@ pub fn gen_cfg_kind(rng: &mut Rng, p: &GenProfile, kind: Kind) -> Cfg {
         }
         .min(p.max_sinc_len)
         .max(8);
+        if rng.chance(0.06) {
+            // a request that is not a multiple of 8: documented to be rounded up (flen() is the rounded length)
+            c.sinc_len -= rng.ui(1, 7);
+        }
         if p.max_sinc_len >= 512 && rng.chance(0.03) {
             // long filters (calculate_cutoff is specified up to 2048)
             c.sinc_len = 8 * rng.ui(65, 256);
